@@ -1,6 +1,8 @@
 import Secp.Proofs.SlicesFrame
 import Secp.Proofs.SlicesFun
 import Secp.Gen.Facts
+import Secp.Proofs.XmdTies
+import Secp.Gen.GroupAPI
 /-!
 # C15 — API calls never write to caller-owned memory and return fresh buffers
 
@@ -54,6 +56,21 @@ slice, never an `*Element`/`*Scalar` argument -/
 theorem api_arguments_never_written :
     ∀ e ∈ Facts.apiFootprints, ∀ p ∈ e.2.2, p.2.2 = true →
       p.1 = 0 ∧ (e.2.1 = true ∨ e.1 = "secp.Secp256Polynomial" ∨ e.1 = "secp.IsogenySecp256k13iso") := by decide
+
+/-- **the value model of `xmd.go` is sound for the caller's memory**: while regenerating the expander `go2lean` follows every
+byte slice through its alias classes (header comment of `go2lean/bytesmode.go`) and records each function that overwrites or
+appends into the memory of a slice parameter. Every function of the expander was translated, the only function that writes a
+parameter's bytes is the internal `xorSlices` (into `bi`, which `xmd` allocates), nothing appends into a parameter's backing
+array, and no returned slice shares memory with a parameter of `expandXMD`, `vetDSTXMD` or `xmd`; the same holds for the
+regenerated `HashToScalar`, `HashToGroup`, `EncodeToGroup`, which hand `input` and `dst` to the expander and nothing else -/
+theorem expander_leaves_arguments_alone :
+    GenXmd.notTranslated = [] ∧ GenXmd.callerMemoryAppends = [] ∧
+    (∀ p ∈ GenXmd.callerMemoryWrites ++ GenXmd.resultShares, p.1 = "xorSlices") ∧
+    GenGroup.notTranslated = [] ∧ GenGroup.callerMemoryWrites = [] ∧ GenGroup.callerMemoryAppends = [] := by decide
+
+/-- the regenerated `vetDSTXMD` computes the same DST′ as the model the frame theorem and the hashing theorems are about -/
+theorem vetDST_regenerated (H : Spec.Bytes → Spec.Bytes) (h dst : Spec.Bytes) :
+    (GenXmd.vetDSTXMD H h dst).map Prod.snd = some (Hand.Group.vetDSTXMD H dst) := XmdTies.vetDSTXMD_eq H h dst
 
 -- non-vacuity: a DST of length 2 inside a 6-byte array with spare capacity 3
 example : (vetDST (fun _ => List.replicate 32 0) [[9, 1, 2, 7, 7, 7]] ⟨0, 1, 2, 5⟩).1.getD 0 [] = [9, 1, 2, 7, 7, 7] := by decide
